@@ -203,6 +203,14 @@ def run(rep, tier, seed):
                 for simple in (False, True):
                     cases.append((gen.TOKEN_TABLE, text, simple))
                     rep.count('operand_after_group_texts')
+    # tables with the same keys and flags and other aliases, used one after the other in this process: each Licensing
+    # recognises its own names only
+    fam = [[('gpl', ['gpl or later', 'gnu gpl'], False), ('bsd', [], False)], [('gpl', [], False), ('bsd', [], False)],
+           [('gpl', ['gpl v2'], False), ('bsd', ['new bsd'], False)]]
+    for text in ('gpl or later', 'bsd and (gpl or later)', 'gnu gpl and bsd', 'gpl v2 or new bsd', 'gpl or bsd', 'new bsd with gnu gpl'):
+        for T in fam + fam[::-1]:
+            cases.append((T, text, False))
+            rep.count('same_keys_other_aliases')
     # regression inputs of the repaired defects
     cases += [([('GNU GPL', [], False), ('GPL 2.0', [], False)], 'GNU GPL 2.0 or mit', False),
               ([('GPL 2.0', [], False), ('mit', [], False)], 'mit or gpl    2.0', False),
@@ -222,13 +230,16 @@ def run(rep, tier, seed):
         reqs.append((4, [eT, 0, 0, int(simple), enc_str(text)]))
         metas.append((T, L, text, simple))
     res = run_model(reqs)
+    rep.trail = []      # (table, text) of every case so far: other Licensing objects are the only shared context
     for i, (T, L, text, simple) in enumerate(metas):
+        rep.trail.append({'table': T, 'text': text, 'simple': simple})
         err, what = account(L, T, text, simple)
         rep.case((repr(T), text, simple), nontrivial=(what == 'ok' and len(gen.lw(text)) >= 2),
                  sample={'table': T, 'text': text, 'simple': simple, 'outcome': what})
         rep.count('outcome_' + what)
         if err:
-            rep.violations.append({'key': 'words', 'kind': 'text', 'table': T, 'text': text, 'simple': simple, 'what': err})
+            rep.violations.append({'key': 'words', 'kind': 'text', 'table': T, 'text': text, 'simple': simple, 'what': err,
+                                   '_at': len(rep.trail) - 1})
             continue
         # correspondence on the token triples and on the parse outcome
         def enc_tok(t):
